@@ -1,5 +1,75 @@
 #![allow(non_snake_case)]
-// unit `chordal_merge` : the clique-merging layer of the chordal analysis (C17)  -- header completed at the end of the file's development
+// unit `chordal_merge` : the clique-merging layer of the chordal analysis (C17): strategy trait + generic driver, the "none" and
+// "parent_child" strategies, SparsityPattern::new, and the bookkeeping of ChordalInfo.  Sibling units: chordal_tree, chordal_decomp,
+// chordal_compact (index-level pieces), chordal_snode (construction of the tree), dsu (union-find of the clique-graph strategy).
+// (cargo feature `sdp`: `//@features serde,sdp` makes R12 / the field filter evaluate #[cfg] for that feature set; source text only.)
+//
+// PROVED (real text of /repo/src/solver/chordal/**, unbounded; panic-freedom = every index / overflow / unwrap / unreachable!() obligation):
+//   merge/mod.rs
+//     MergeStrategy::merge_cliques  the generic driver, verbatim inside the trait: for EVERY strategy that honours the contracts written on
+//         the trait methods (ghost reading: init_pre / inv / done / fuel / cand_ok / ready / mid / result_ok) the loop terminates
+//         (decreases: a round either sets `done` or ends with less fuel), no call precondition fails, the result satisfies the strategy's
+//         result_ok, `post` is untouched.  The early exit `if t.n_cliques == 1 { break; }` is what establishes `n_cliques >= 2` for
+//         the next `traverse` (needed by the clique-graph strategy: max_elem on an empty edge list panics)
+//     set_union_into_indexed        sets[c1] = sets[c1] with the members of sets[c2] inserted one after the other (ins_all); every other
+//         set unchanged; c1 == c2: nothing happens (verbatim incl. the deferred `let (target, source);` and split_at_mut)
+//   merge/nomerge.rs   all seven methods against the trait contracts: done from the start, the four `unreachable!()` are unreachable, tree untouched
+//   merge/parent_child.rs  new, initialise, is_done, traverse, evaluate, merge_two_cliques, update_strategy, post_process_merge against the
+//         trait contracts, + determine_parent, clique_dim, fill_in.  State invariant tree_ok: snode_children is the inverse of
+//         snode_parent; the supernodes PARTITION the vertices 0..nv (every vertex in exactly one, listed once); separators hold
+//         vertices, once each, and lie inside the parent clique; an inactive clique is empty; nobody's parent is inactive; there is a
+//         root; n_cliques = number of cliques not marked INACTIVE_NODE >= 1; the parent pointers form a FOREST (rank function).
+//         merge_two_cliques(p, ch): pc_merged = snode[p] = snode[p] ++ snode[ch], snode[ch] = separators[ch] = children[ch] = {},
+//         every grandchild re-parented to p, snode_parent[ch] = INACTIVE_NODE, children[p] = (children[p] - ch) ++ children[ch],
+//         n_cliques - 1, nothing else; tree_ok preserved (lemma_pc_merge); every vertex stays in exactly one supernode
+//         (in_sn equivalence).  evaluate: no underflow in fill_in (separator of the child fits into the parent clique: lemma_sep_fits),
+//         no overflow (sets of distinct vertices < nv < 2^31: pigeonhole lemma_nodup_bounded).  traverse/update: the cliques of order
+//         <= clique_index still have an (active) parent (trav_ok), clique_index strictly decreases until stop
+//   sparsity_pattern.rs   SparsityPattern::new: merging runs only if n_cliques > 1 (each strategy's `initialise` needs two cliques: the
+//         guard is what establishes init_pre); result: post order of length n_cliques >= 1 naming cliques, nblk = |separator| + |supernode|
+//         per clique, orig_index / ordering length kept.  The `_` arm (panic!) is unreachable IF the method string is one of the three
+//   supernode_tree.rs     calculate_block_dimensions (as in chordal_tree, against out_ok)
+//   chordal_info.rs       analyse_psdtriangle_sparsity_pattern (diagonal forced on, nothing else of the mask changes; dense => nothing
+//         recorded; otherwise either nothing or exactly ONE pattern with orig_index = coneidx and n_cliques >= 2 is appended: a non-dense
+//         pattern is dropped only via the `n_cliques == 1` return), is_decomposed, init_cone_count, init_psd_cone_count (= number of
+//         PSDTriangleConeT), decomposable_cone_count, final_psd_cones_added (= sum n_cliques - #patterns; no underflow because every
+//         kept pattern has >= 2 cliques), premerge_psd_cones_added (same with snode.len()), final_cone_count, final_psd_cone_count,
+//         premerge_psd_cone_count
+//   merge/clique_graph.rs intersect_dim (members of the smaller set that are members of the other), union_dim (no underflow)
+// ASSUMED (hand-written, not verified here; each with the reason):
+//   VertexSet = indexmap::IndexSet<usize> stand-in (units/inc/chordal_sets.rs): insert / contains / len / is_empty / clear / iter as in
+//     chordal_tree, plus new / with_capacity (empty), shift_remove (removes the member, keeps the order), sort (same members, ascending);
+//   post_order: contract = what its stack loop is PROVED to do in unit chordal_snode + the assumed std sort (result: nc entries naming
+//     cliques, none twice; child sets keep their members);
+//   SuperNodeTree::new: ensures tree_ok, post order of all n cliques with the root last (trav_ok), n_cliques = n.  Covered by proved
+//     contracts: snode_children inverse of snode_parent (children_from_parent, chordal_tree), partition (pothen_sun_loop sn_inv +
+//     find_supernodes_fill, chordal_snode), parent numbers in range / NO_PARENT (pothen_sun_renumber), supernodal parent = supernode of
+//     the parent of the top vertex (pothen_sun_loop, chordal_snode), separators = higher neighbours of the smallest vertex outside the
+//     supernode (find_separators, chordal_snode).  NOT covered by any contract: sep_in_parent (graph theory of fundamental supernodes of a
+//     chordal graph), forest / single root / root last in the post order (needs the sort of post_order and `retain` of find_supernodes);
+//   SuperNodeTree::reorder_snode_consecutively (sort, IndexSet::extend, invperm, ipermute): keeps the shape, post order and set sizes;
+//   CliqueGraphMergeStrategy: all methods (HashMap, closures, CscMatrix<isize>): assumed to honour the trait contracts, result_ok = out_ok;
+//   find_graph (chordal_decomp proves its triplet loop and connect_graph), triangular_index (proved in scalarmath);
+//   std: core::cmp::max at usize (admitted instance + canary), &str == literal (rule strmatch, helper str_eq).
+// EXTRACTOR (additive): rule `strmatch` (match on a &str with literal patterns -> if / else-if chain of str_eq).
+// PRECONDITIONS and the call sites:
+//   merge_cliques (parent_child) init_pre: tree_ok + >= 2 cliques + post order with the root last: from SuperNodeTree::new (assumed, see
+//     above) and the guard `n_cliques > 1` of SparsityPattern::new (proved to be sufficient);
+//   SparsityPattern::new `is_merge_method(merge_method)`: NOT established.  D1 below;
+//   analyse_psdtriangle_sparsity_pattern `nz_mask.len() == tri(conedim)`: rng_cones of a PSDTriangleConeT(conedim), by inspection of
+//     find_sparsity_patterns (dropped);  counting helpers `wf`: patterns are pushed only by analyse (>= 2 cliques: proved), sizes < 2^31.
+// DEFECT CANDIDATES (described, not fixed):
+//   D1 DefaultSolver::new never validates the settings (DefaultSettings::validate is called only by the builder and by the Julia / Python
+//      wrappers; the fields are pub).  `DefaultSettings { chordal_decomposition_merge_method: "foo".into(), ..Default::default() }` with a
+//      PSD cone whose pattern is not dense and has >= 2 cliques reaches `panic! {"Unrecognized merge strategy"}` during setup instead of
+//      an Err.  With n_cliques <= 1 the string is never looked at.
+//   D2 post_order at the clique-graph call site: `i -= 1` underflows unless at most n_cliques entries of snode_parent differ from
+//      INACTIVE_NODE, i.e. unless the spanning tree built by kruskal / assign_children reaches exactly the non-empty cliques; proved for the
+//      parent-child strategy (tree_ok), not looked at for the clique graph (its code is out of reach here).
+// DROPPED: find_sparsity_patterns / ChordalInfo::new (`rng_cones_iter`, zip over an iterator object), ChordalInfo::
+//   get_decomposed_dim_and_overlaps (peekable), the clique-graph strategy except intersect_dim / union_dim (inter_equal, max_elem,
+//   is_unconnected, ispermissible, kruskal, ... : HashMap / closures / findmax), reorder_snode_consecutively.
+// MUTATION ROUND (scratch copy, 28 wrong edits of the real functions, one at a time): all rejected by a named obligation.
 use vstd::prelude::*;
 verus! {
 global size_of usize == 8;
@@ -1171,6 +1241,38 @@ it
         }
 //@end
 }
+
+// ---- merge/clique_graph.rs: two closure-free helpers ----
+// number of members of a among the first k that are also members of b
+pub open spec fn cnt_common(a: Seq<usize>, b: Seq<usize>, k: int) -> int decreases k {
+    if k <= 0 { 0 } else { cnt_common(a, b, k - 1) + (if b.contains(a[k - 1]) { 1int } else { 0int }) }
+}
+pub proof fn lemma_cnt_common_bounds(a: Seq<usize>, b: Seq<usize>, k: int)
+    requires 0 <= k, ensures 0 <= cnt_common(a, b, k) <= k, decreases k,
+{ if k > 0 { lemma_cnt_common_bounds(a, b, k - 1); } }
+//@fn file=src/solver/chordal/merge/clique_graph.rs name=intersect_dim rules=setiter:sa ret=r
+//@contract
+    ensures
+        // |s1 n s2| for sets without repeated members: the members of the smaller set (s2 on a tie) that are members of the other one
+        r == (if s1@.len() < s2@.len() { cnt_common(s1@, s2@, s1@.len() as int) } else { cnt_common(s2@, s1@, s2@.len() as int) }),
+        r <= s1@.len() && r <= s2@.len(),
+//@iter 1
+it
+//@loop 1
+        invariant
+            it.seq().len() == sa@.len(), forall|k: int| 0 <= k < sa@.len() ==> *(#[trigger] it.seq()[k]) == sa@[k],
+            dim == cnt_common(sa@, sb@, it.index@ as int), dim <= it.index@, sa@.len() <= usize::MAX,
+//@body_start 1
+        proof { lemma_cnt_common_bounds(sa@, sb@, it.index@ as int); }
+//@end
+//@fn file=src/solver/chordal/merge/clique_graph.rs name=union_dim ret=r
+//@contract
+    requires s1@.len() < 0x8000_0000, s2@.len() < 0x8000_0000,
+    ensures
+        // |s1 u s2| = |s1| + |s2| - |s1 n s2|; the subtraction cannot underflow
+        r == s1@.len() + s2@.len() - (if s1@.len() < s2@.len() { cnt_common(s1@, s2@, s1@.len() as int) } else { cnt_common(s2@, s1@, s2@.len() as int) }),
+        r >= s1@.len() && r >= s2@.len(),
+//@end
 
 } // verus!
 fn main() {}
